@@ -42,6 +42,8 @@ package templ
 // registry monotonicity (C12) and the children slot (C13): a component may
 // consume (clear) the slot it was given, never install another one.
 //@   ensures {C13} implies(result == nil, slot() == nil || slot() == old(slot()))
+// registry monotonicity (C12): nothing that was emitted is forgotten
+//@   ensures {C12} monotone(old(cv().ss), cv().ss) && monotone(old(cv().onceHandles), cv().onceHandles)
 
 //@ func (ComponentFunc) Render [C10]
 //@   inline
@@ -232,3 +234,51 @@ package templ
 //@   use {C01} before writeStrings#5: attr_kv(appended(w), arg1[1], arg1[3])
 //@   use {C01} before writeStrings#6: attr_k(appended(w), arg1[1])
 //@   use {C01} before writeStrings#7: attr_k(appended(w), arg1[1])
+
+// ---------------------------------------------------------------------------
+// C12: scripts, CSS classes and once-blocks are emitted once per context, before use.
+// View of the per-context registry: the key sets of cv().ss and cv().onceHandles.
+// Recursive specification functions over a list of items (written from the property):
+//   regFold(items, R0, n, prefix, Key)        R(0) = R0,  R(k+1) = R(k) + {prefix ++ items[k].Key}
+//   emitFold(items, R0, n, prefix, Key, Text) E(0) = "",  E(k+1) = E(k) ++ (prefix ++ items[k].Key in R(k) ? "" : items[k].Text)
+
+//@ func (*contextValue) addScript [C12]
+//@   requires v != nil
+//@   modifies v.ss
+//@   ensures v.ss == withKey(old(v.ss), cat("script_", s))
+//@ func (*contextValue) hasScriptBeenRendered [C12]
+//@   requires v != nil
+//@   modifies v.ss
+//@   ensures ok == has(old(v.ss), cat("script_", s)) && v.ss == old(v.ss)
+//@ func (*contextValue) addClass [C12]
+//@   requires v != nil
+//@   modifies v.ss
+//@   ensures v.ss == withKey(old(v.ss), cat("class_", s))
+//@ func (*contextValue) hasClassBeenRendered [C12]
+//@   requires v != nil
+//@   modifies v.ss
+//@   ensures ok == has(old(v.ss), cat("class_", s)) && v.ss == old(v.ss)
+//@ func (*contextValue) setHasBeenRendered [C12]
+//@   requires v != nil
+//@   modifies v.onceHandles
+//@   ensures v.onceHandles == withKey(old(v.onceHandles), h)
+//@ func (*contextValue) getHasBeenRendered [C12]
+//@   requires v != nil
+//@   modifies v.onceHandles
+//@   ensures ok == has(old(v.onceHandles), h) && v.onceHandles == old(v.onceHandles)
+
+// RenderScriptItems: the function definitions of exactly those scripts whose name is not yet in the
+// registry (and not earlier in the list) are emitted, in order, inside one script element; every
+// name is recorded; nothing else in the registry changes.
+//@ func RenderScriptItems [C12, C10]
+//@   modifies doc(w), failedDuring, cv().ss
+//@   ensures isPrefix(old(sink(w)), sink(w))
+//@   ensures implies(err == nil, isPrefix(old(doc(w)), doc(w)) && failedDuring == old(failedDuring))
+//@   ensures implies(err != nil, failedDuring)
+//@   ensures implies(old(failedDuring), failedDuring)
+//@   ensures {C12} cv().ss == regFold(scripts, old(cv().ss), len(scripts), "script_", Name)
+//@   ensures {C12} implies(err == nil && emitFold(scripts, old(cv().ss), len(scripts), "script_", Name, Function) == "", doc(w) == old(doc(w)))
+//@   ensures {C12} implies(err == nil && emitFold(scripts, old(cv().ss), len(scripts), "script_", Name, Function) != "", isSuffix(cat(emitFold(scripts, old(cv().ss), len(scripts), "script_", Name, Function), "</script>"), doc(w)))
+//@   loop 1 invariant doc(w) == old(doc(w)) && failedDuring == old(failedDuring)
+//@   loop 1 invariant {C12} v.ss == regFold(scripts, old(cv().ss), iter, "script_", Name)
+//@   loop 1 invariant {C12} sb.String() == emitFold(scripts, old(cv().ss), iter, "script_", Name, Function)
